@@ -168,7 +168,8 @@ def lark_term(x):
     if k == "and":
         return "(" + " & ".join(lark_term(a) for a in x["a"]) + ")"
     if k == "not":
-        return "(~" + lark_term(x["a"]) + ")"
+        # `~` binds tighter than a postfix operator: `~(x)*` is `(~(x))*`, so the operand gets its own parentheses
+        return "(~(" + lark_term(x["a"]) + "))"
     if k == "cat":
         return "(" + " ".join(lark_term(a) for a in x["a"]) + ")"
     if k == "alt":
